@@ -273,6 +273,7 @@ def robustness_corpus(ctx, rng):
         i = bytes(make_interest(nm, InterestParam(nonce=8, can_be_prefix=True)))
         out.append(('lp', rc.make_lp(fragment=i, nack_reason=rng.choice([0, 50, 150]))))
         out.append(('lp', rc.make_lp(fragment=i, nack=True)))
+        out.append(('lp', rc.make_lp(fragment=i, nack_reason=rng.choice([0, 50, 150]), pit_token=b'\x0a\x0b')))
         out.append(('lp', rc.make_lp(fragment=i, pit_token=b'\x01\x02')))
         out.append(('lp', rc.make_lp(fragment=bytes(make_data(nm, MetaInfo(), b'w', sd)), headers=[(0x340, b'\x01')])))
         out.append(('lp', rc.make_lp(fragment=bytes(make_data(nm, MetaInfo(), b'w', sd)), nack_reason=100)))
@@ -409,6 +410,7 @@ def run_batch(ctx, fe, state, items):
             except (rc.Reject, KeyError):
                 continue
             nerr = len(S.sentinel.all())
+            nh = len(handler_log)
             w = {'frontend': fe, 'state': state, 'kind': kind, 'mutation': label, 'mode': mode,
                  'wire': wire if len(wire) < 500 else wire[:250]}
             try:
@@ -427,6 +429,11 @@ def run_batch(ctx, fe, state, items):
             ctx.event('delivered')
             if state == 'busy':
                 tgt = legit_target(wire) if mode == 'framed' or True else None
+                if len(handler_log) > nh and tgt is not None and tgt[0] in ('nack', 'data'):
+                    # a strictly well-formed Nack / Data never addresses an Interest handler
+                    res['viol'].append((f'handler-invoked-by-{tgt[0]}:{fe}', f'handler {handler_log[-1][0]} was invoked by a well-formed {tgt[0]} packet', w))
+                elif len(handler_log) > nh:
+                    ctx.event('handler-invoked-during-batch')
                 for key, nm, cbp in (('P1', P1, False), ('P2', P2, True)):
                     t = pend[key]
                     if t.done():
@@ -477,6 +484,89 @@ def run_batch(ctx, fe, state, items):
         ctx.report(mech, what, w)
     if S.result != 'ok':
         ctx.report(f'robustness-scenario-{S.result}:{fe}', f'batch did not complete: {S.error!r}', {'frontend': fe, 'state': state})
+
+
+def check_finished_window(ctx, rng):
+    """A Nack / Data for an Interest that has *just* finished (caller cancelled it, or its lifetime timer fired) in the very
+    same loop step - before the waiting coroutine has run its cleanup - is a packet nobody is waiting for."""
+    for fe in ('v2', 'v1'):
+        for how in ('cancel', 'timeout'):
+            for pkt in ('nack', 'data'):
+                res = {}
+
+                async def main(S):
+                    face = RecFace()
+                    the_app = appv2.NDNApp(face=face) if fe == 'v2' else appv1.NDNApp(face=face, keychain=KeychainDigest())
+                    main_task = asyncio.ensure_future(the_app.main_loop())
+                    await asyncio.sleep(0)
+                    name = [rc.comp(8, b'w'), rc.comp(8, how.encode()), rc.comp(8, pkt.encode())]
+
+                    async def v2v(n, s_, c):
+                        return types.ValidResult.PASS
+
+                    def ex(lifetime):
+                        n0 = len(face.sent)
+                        if fe == 'v2':
+                            coro = the_app.express(name, v2v, lifetime=lifetime, nonce=len(face.sent) + 1)
+                        else:
+                            coro = the_app.express_interest(name, lifetime=lifetime, nonce=len(face.sent) + 1)
+                        return asyncio.ensure_future(coro), face.sent[n0][1]
+                    t1, iw = ex(100)
+                    t2, _ = ex(5000)
+                    await asyncio.sleep(0.02)
+                    wire = rc.make_lp(fragment=iw, nack_reason=150) if pkt == 'nack' else bytes(make_data(name, MetaInfo(), b'x', DigestSha256Signer()))
+                    if how == 'cancel':
+                        t1.cancel()                      # no await between the cancellation and the delivery
+                    else:
+                        # arrange for the delivery to run in the loop step in which the lifetime timer fires
+                        await S.sleep_until_ms(100 - 1)
+                        loop = asyncio.get_running_loop()
+                        done = loop.create_future()
+
+                        def deliver_now():
+                            async def go():
+                                try:
+                                    await face.deliver(wire)
+                                    done.set_result(None)
+                                except Exception as e:   # noqa
+                                    done.set_result(e)
+                            asyncio.ensure_future(go())
+                        loop.call_at(0.1, deliver_now)
+                        res['raised'] = await done
+                    if how == 'cancel':
+                        try:
+                            await face.deliver(wire)
+                            res['raised'] = None
+                        except Exception as e:   # noqa
+                            res['raised'] = e
+                    await asyncio.sleep(0.05)
+                    if t1.done() and not t1.cancelled():
+                        t1.exception()
+                    res['t2_done'] = t2.done()
+                    res['t2_exc'] = (t2.exception() if t2.done() and not t2.cancelled() else None)
+                    if not t2.done():
+                        t2.cancel()
+                    the_app.shutdown()
+                    await asyncio.wait_for(main_task, 5)
+                S = vtime.run(main)
+                w = {'frontend': fe, 'finished_by': how, 'packet': pkt}
+                ctx.case(('window', fe, how, pkt))
+                ctx.event('finished-window')
+                if S.result != 'ok':
+                    ctx.report(f'window-scenario-{S.result}:{fe}', f'{S.error!r}', w)
+                    continue
+                e = res.get('raised')
+                if e is not None:
+                    ctx.report(f'uncaught:{type(e).__name__}@{raising_site(e)[0]}<-{fe}:just-finished-interest',
+                               f'packet reception raised {e!r} for a {pkt} whose Interest had just been finished by {how}', w)
+                for le in S.sentinel.all():
+                    ex_ = le.get('exception')
+                    ctx.report(f'background:{type(ex_).__name__ if ex_ else "?"}<-{fe}:just-finished-interest', f'{le.get("repr")}', w)
+                # the other Interest on the same name is legitimately addressed: it must get the Nack / the Data
+                if not res.get('t2_done'):
+                    ctx.report(f'bystander-starved:{fe}:same-name-sibling', f'the other pending Interest on that name did not receive the {pkt}', w)
+                elif pkt == 'nack' and not isinstance(res.get('t2_exc'), types.InterestNack):
+                    ctx.report(f'bystander-starved:{fe}:same-name-sibling', f'the other pending Interest ended with {res.get("t2_exc")!r} instead of the Nack', w)
 
 
 # ------------------------------------------------------------------ (c) UDP
@@ -538,11 +628,14 @@ def run(ctx):
     check_framing(ctx, rng)
     check_robustness(ctx, rng)
     if ctx.shard == 0:
+        check_finished_window(ctx, rng)
+    if ctx.shard == 0:
         check_udp(ctx, rng)
     if not ctx.quick and ctx.shard in (1 % ctx.nshards, 2 % ctx.nshards):
         check_real_sockets(ctx, rng)
     for k in ('framing-run', 'framing-eof', 'delivered', 'bystander-pending-ok', 'bystander-handler-ok'):
         ctx.need_event(k)
     ctx.need_event('udp-datagram')
+    ctx.need_event('finished-window')
     ctx.assumptions = ['handler exceptions and validator exceptions of user code are outside the statement (harness handlers never raise)',
                        '"legitimately addressed" = the bytes strictly decode (refcodec) to a Data/Nack matching the pending Interest']
